@@ -400,8 +400,10 @@ class C13(runner.Check):
             'per-edge arguments, auto transitions on/off, callbacks in every slot) x 4 construction scripts each '
             '(canonical + 3 random rewrites: representation per state/name/callback, constructor vs add_* calls, '
             'batching, shorthand expansion, add-then-remove detours) x histories of 2-10 triggers with scripted '
-            'condition outcomes; non-trivial = at least 3 distinct scripts and an executed transition; distinct = '
-            'different (ops, history, options)')
+            'condition outcomes; plus hierarchical descriptions (2-4 top states, depth <=3, compounds with local '
+            'transitions and exits) x 4 scripts (children/states key, NestedState objects, bare names, joined names '
+            'created later, embedded machine with remap vs explicit form); non-trivial = at least 3 distinct scripts '
+            'and an executed transition; distinct = different (ops or tree, history, options)')
     trusted = ('hand-written model lean/Model/Build.lean tied to /repo by structural equality on every generated script',
                'harness/build13.py: variant generator (its expansions are re-checked by the model and the real classes), '
                'introspection of Machine.states / events[*].transitions, recorders')
@@ -452,14 +454,22 @@ class C13(runner.Check):
             print('no concrete input in this replay file: broken obligation', payload.get('broken_obligation'))
             return 1
         vs, runs, fs = rejudge(payload['case'])
+        nested = payload['case']['stream'].startswith('nested')
+        if nested:
+            print('state tree:', json.dumps(payload['case']['case']['top']))
+            print('global transitions:', json.dumps(payload['case']['case']['transitions']))
         for i, (v, r) in enumerate(zip(vs, runs)):
             print('--- script %d%s' % (i, ' (canonical)' if i == 0 else ''))
-            for st in v['steps']:
-                print('   ', json.dumps(st, sort_keys=True))
+            if nested:
+                print('    plan:', json.dumps(v, sort_keys=True))
+            else:
+                for st in v['steps']:
+                    print('   ', json.dumps(st, sort_keys=True))
             if r.error:
                 print('    raises', r.error)
             else:
-                print('    machine:', json.dumps(build13.normal_form(r.introspect()), sort_keys=True, default=str))
+                intro = r.introspect()
+                print('    machine:', json.dumps(intro if nested else build13.normal_form(intro), sort_keys=True, default=str))
                 print('    trace:', '; '.join(common.show_item(x) for x in r.items))
         for f in fs:
             print('FAIL', f.kind, f.what, json.dumps(f.details, default=str)[:600])
